@@ -20,18 +20,21 @@ import (
 	"github.com/arloliu/go-secs/v2/secs2"
 	"pgregory.net/rapid"
 	"verif/harness/ev"
+	"verif/harness/netsim"
 	"verif/harness/ref/e37"
 	"verif/harness/vt"
 )
 
 func TestC09LateAccept(t *testing.T) {
-	ev.Rule("passive HSMS-SS endpoint, virtual time: a peer connects while the endpoint listens; the accepting goroutine returns from Accept only once the listener has been closed by Close (optionally the peer has already written a Select.req and a data frame into the socket); then 0-2 re-Opens, each with a fresh peer that selects and runs a reply-expected round trip while the OLD peer injects, on its old socket, a reply carrying the new transaction's system bytes, a Select.req and a primary message. Oracle: Close returns nil within the close timeout, the late-accepted socket is closed (the old peer reads EOF, the socket registry is empty), State() is NotConnected; in the later generations every reply comes from that generation's peer, nothing of the old peer is delivered or answered; non-trivial = always (the accept always races the Close)")
+	ev.Rule("HSMS-SS endpoint, virtual time. Passive: a peer connects while the endpoint listens; the accepting goroutine returns from Accept only once the listener has been closed by Close. Active: after a healthy generation was dropped, the re-dial's connection is established but the dialer returns 80 ms late - after Close (optionally the peer has already written a Select.req and a data frame into the socket); then 0-2 re-Opens, each with a fresh peer that selects and runs a reply-expected round trip while the OLD peer injects, on its old socket, a reply carrying the new transaction's system bytes, a Select.req and a primary message. Oracle: Close returns nil within the close timeout, the late-accepted socket is closed (the old peer reads EOF, the socket registry is empty), State() is NotConnected; in the later generations every reply comes from that generation's peer, nothing of the old peer is delivered or answered; non-trivial = always (the accept always races the Close)")
 	vt.Bubble(t, func(t *testing.T) {
 		vt.CheckBubble(t, 400, 20000, func(rt *rapid.T) {
 			preload := rapid.SampledFrom([]string{"nothing", "select", "select+data"}).Draw(rt, "preload")
 			reopens := rapid.IntRange(0, 2).Draw(rt, "reopens")
 			closeTO := time.Duration(rapid.SampledFrom([]int{500, 2000}).Draw(rt, "closeTimeoutMs")) * time.Millisecond
-			w, err := newWorld(worldOpt{active: false, connOpts: []hsms.ConnOption{hsms.WithT3(time.Second), hsms.WithT7(5 * time.Second), hsms.WithCloseTimeout(closeTO)}})
+			active := rapid.Bool().Draw(rt, "active")
+			w, err := newWorld(worldOpt{active: active, connOpts: []hsms.ConnOption{hsms.WithT3(time.Second), hsms.WithT6(5 * time.Second), hsms.WithT7(5 * time.Second), hsms.WithCloseTimeout(closeTO),
+				hsms.WithT5(20 * time.Millisecond), hsms.WithReconnectBackoff(10*time.Millisecond, 1)}})
 			if err != nil {
 				rt.Fatalf("VERIF-INFRA: %v", err)
 			}
@@ -48,19 +51,49 @@ func TestC09LateAccept(t *testing.T) {
 				hist = append(hist, fmt.Sprintf("+%v ", time.Since(t0))+fmt.Sprintf(f, a...))
 			}
 			fail := func(f string, a ...any) {
-				rt.Fatalf("C09 violated (preload=%s reopens=%d closeTimeout=%v): %s\nhistory:\n  %s", preload, reopens, closeTO, fmt.Sprintf(f, a...), strings.Join(hist, "\n  "))
+				rt.Fatalf("C09 violated (active=%v preload=%s reopens=%d closeTimeout=%v): %s\nhistory:\n  %s", active, preload, reopens, closeTO, fmt.Sprintf(f, a...), strings.Join(hist, "\n  "))
 			}
-			w.lateAccept.Store(true)
-			if err := w.conn.Open(context.Background(), hsms.OpenBackground); err != nil {
-				rt.Fatalf("VERIF-INFRA: open: %v", err)
-			}
-			old, err := w.peerUp(time.Second)
-			if err != nil {
-				rt.Fatalf("VERIF-INFRA: %v", err)
+			var old *netsim.Peer
+			if active {
+				// ACTIVE endpoint: the analogous instant is a re-dial whose connection is established but
+				// whose dialer returns only after Close (a dialer with a post-connect phase, or simply a
+				// slow return): first a healthy generation, then the peer drops it, the reconnect loop
+				// dials, the peer accepts - and Close lands before the dialer has returned.
+				if err := w.conn.Open(context.Background(), hsms.OpenBackground); err != nil {
+					rt.Fatalf("VERIF-INFRA: open: %v", err)
+				}
+				first, err := w.peerUp(time.Second)
+				if err != nil {
+					rt.Fatalf("VERIF-INFRA: %v", err)
+				}
+				if err := w.selectAsPeer(first, 0x0100); err != nil {
+					rt.Fatalf("VERIF-INFRA: select: %v", err)
+				}
+				w.slow.Store(int64(80 * time.Millisecond))
+				first.C.Reset()
+				_ = first.C.Close()
+				if old, err = w.peerUp(time.Second); err != nil { // the re-dial is accepted; its dialer is still "returning"
+					rt.Fatalf("VERIF-INFRA: no re-dial: %v", err)
+				}
+				if w.ln != nil {
+					_ = w.ln.Close()
+				}
+			} else {
+				w.lateAccept.Store(true)
+				if err := w.conn.Open(context.Background(), hsms.OpenBackground); err != nil {
+					rt.Fatalf("VERIF-INFRA: open: %v", err)
+				}
+				var err error
+				if old, err = w.peerUp(time.Second); err != nil {
+					rt.Fatalf("VERIF-INFRA: %v", err)
+				}
 			}
 			defer func() {
 				_ = w.conn.Close()
 				old.Close()
+				if w.ln != nil {
+					_ = w.ln.Close()
+				}
 				synctest.Wait()
 			}()
 			switch preload {
@@ -76,6 +109,8 @@ func TestC09LateAccept(t *testing.T) {
 			d := time.Since(st)
 			logf("Close -> %v after %v", cerr, d)
 			w.lateAccept.Store(false)
+			time.Sleep(100 * time.Millisecond) // a dialer that was still returning has returned by now
+			w.slow.Store(0)
 			synctest.Wait()
 			if cerr != nil {
 				fail("Close returned %v although every handler returns", cerr)
@@ -93,6 +128,9 @@ func TestC09LateAccept(t *testing.T) {
 				fail("the peer whose connection was accepted while the listener was closing never saw its connection end")
 			}
 			for g := 0; g < reopens; g++ {
+				if active {
+					_ = w.listen()
+				}
 				if err := w.conn.Open(context.Background(), hsms.OpenBackground); err != nil {
 					fail("re-Open %d: %v", g, err)
 				}
@@ -154,13 +192,16 @@ func TestC09LateAccept(t *testing.T) {
 					fail("Close of generation %d: %v", g+2, err)
 				}
 				p.Close()
+				if w.ln != nil {
+					_ = w.ln.Close()
+				}
 				synctest.Wait()
 				if l := w.leaked(); len(l) > 0 {
 					fail("after the Close of generation %d still open: %v", g+2, l)
 				}
 				logf("generation %d ok", g+2)
 			}
-			ev.Case(true, fmt.Sprintf("%s/%d/%v", preload, reopens, closeTO), func() any { return hist }, "c09b:preload:"+preload, fmt.Sprintf("c09b:reopens:%d", reopens))
+			ev.Case(true, fmt.Sprintf("%v/%s/%d/%v", active, preload, reopens, closeTO), func() any { return hist }, "c09b:preload:"+preload, fmt.Sprintf("c09b:reopens:%d", reopens))
 		})
 	})
 }
@@ -315,3 +356,142 @@ func TestC09StalledWriteEnd(t *testing.T) {
 // errAsyncAccepted marks an async send that was accepted into the queue (its frame can only be
 // discarded when the generation ends; the call itself has nothing more to report).
 var errAsyncAccepted = fmt.Errorf("accepted into the send queue")
+
+// TestC09CloseAtRetry: Close lands at exactly the virtual instant at which the reconnect loop wakes
+// from a backoff sleep and publishes / dials its next generation (the peer is reachable again, so the
+// attempt would succeed). Close and the loop race for real; whichever wins, no generation may outlive
+// Close: everything handed to the library is closed, nothing is dialled or listened afterwards.
+func TestC09CloseAtRetry(t *testing.T) {
+	ev.Rule("HSMS-SS, both roles, virtual time; backoff 10 ms x2, T5 40 ms; a Selected generation is dropped by the peer (close or reset), 0-2 re-dials are refused / re-listens fail, then the peer is reachable again; Close is called exactly when the next attempt is due (or 1 ms before / after). Oracle: Close returns nil within the close timeout; afterwards State() is NotConnected, every socket and listener handed to the library is closed, a peer that was accepted in the race reads EOF, and for 1 s nothing is dialled, listened or accepted; a re-Open then works; non-trivial = always")
+	vt.Bubble(t, func(t *testing.T) {
+		vt.CheckBubble(t, 2000, 100000, func(rt *rapid.T) {
+			active := rapid.Bool().Draw(rt, "active")
+			refusals := rapid.IntRange(0, 2).Draw(rt, "refusals")
+			off := time.Duration(rapid.SampledFrom([]int{0, 0, 0, -1, 1}).Draw(rt, "offMs")) * time.Millisecond
+			w, err := newWorld(worldOpt{active: active, connOpts: []hsms.ConnOption{hsms.WithT3(time.Second), hsms.WithT5(40 * time.Millisecond), hsms.WithT6(time.Second), hsms.WithT7(5 * time.Second),
+				hsms.WithReconnectBackoff(10*time.Millisecond, 2), hsms.WithCloseTimeout(time.Second)}})
+			if err != nil {
+				rt.Fatalf("VERIF-INFRA: %v", err)
+			}
+			var peers []*netsim.Peer
+			var hist []string
+			t0 := time.Now()
+			logf := func(f string, a ...any) { hist = append(hist, fmt.Sprintf("+%v ", time.Since(t0))+fmt.Sprintf(f, a...)) }
+			fail := func(f string, a ...any) {
+				var evs []string
+				for _, e := range w.nw.Events() {
+					evs = append(evs, fmt.Sprintf("+%v %s", e.At.Sub(t0), e.Kind))
+				}
+				rt.Fatalf("C09 violated (active=%v refusals=%d close offset %v): %s\nhistory:\n  %s\ndial/listen log:\n  %s", active, refusals, off, fmt.Sprintf(f, a...), strings.Join(hist, "\n  "), strings.Join(evs, "\n  "))
+			}
+			defer func() {
+				_ = w.conn.Close()
+				for _, p := range peers {
+					p.Close()
+				}
+				if w.ln != nil {
+					_ = w.ln.Close()
+				}
+				synctest.Wait()
+			}()
+			if err := w.conn.Open(context.Background(), hsms.OpenBackground); err != nil {
+				rt.Fatalf("VERIF-INFRA: open: %v", err)
+			}
+			p, err := w.peerUp(time.Second)
+			if err != nil {
+				rt.Fatalf("VERIF-INFRA: %v", err)
+			}
+			peers = append(peers, p)
+			if err := w.selectAsPeer(p, 0x0100); err != nil {
+				rt.Fatalf("VERIF-INFRA: select: %v", err)
+			}
+			if active {
+				w.nw.RefuseNextDials(refusals)
+			} else {
+				w.nw.FailNextListens(refusals)
+			}
+			if rapid.Bool().Draw(rt, "reset") {
+				p.C.Reset()
+			}
+			_ = p.C.Close()
+			synctest.Wait()
+			dropAt := time.Now()
+			// attempts are due 10, 30, 70 ms after the drop (10, 20, 40): the first one that is not refused
+			due := []time.Duration{10, 30, 70}[refusals] * time.Millisecond
+			// a harness acceptor for whatever the racing attempt manages to establish
+			var raced *netsim.Peer
+			accDone := make(chan struct{})
+			go func() {
+				defer close(accDone)
+				if active {
+					if c, err := w.ln.Accept(); err == nil {
+						raced = netsim.NewPeer(c.(*netsim.Conn))
+					}
+				}
+			}()
+			time.Sleep(time.Until(dropAt.Add(due + off)))
+			st := time.Now()
+			cerr := w.conn.Close()
+			d := time.Since(st)
+			logf("Close at drop+%v -> %v after %v", due+off, cerr, d)
+			if cerr != nil {
+				fail("Close returned %v", cerr)
+			}
+			if d > time.Second {
+				fail("Close took %v (close timeout 1 s)", d)
+			}
+			synctest.Wait()
+			if got := w.conn.State(); got != hsms.NotConnectedState {
+				fail("State()=%v after Close", got)
+			}
+			ne := len(w.nw.Events())
+			time.Sleep(time.Second)
+			synctest.Wait()
+			if w.ln != nil {
+				_ = w.ln.Close()
+			}
+			<-accDone
+			if raced != nil {
+				peers = append(peers, raced)
+				if !raced.WaitEOF(time.Second) {
+					fail("a connection established by the attempt that raced Close is still open 1 s after Close returned (a generation outlived Close)")
+				}
+			}
+			if l := w.leaked(); len(l) > 0 {
+				fail("still open 1 s after Close: %v", l)
+			}
+			if !active && w.nw.Listening(w.addr) {
+				fail("the endpoint is listening again 1 s after Close (a generation outlived Close)")
+			}
+			if evs := w.nw.Events(); len(evs) != ne {
+				fail("a %s happened after Close had returned", evs[ne].Kind)
+			}
+			if got := w.conn.State(); got != hsms.NotConnectedState {
+				fail("State()=%v one second after Close", got)
+			}
+			// and the connection can be opened again
+			if active {
+				_ = w.listen()
+			}
+			if err := w.conn.Open(context.Background(), hsms.OpenBackground); err != nil {
+				fail("re-Open: %v", err)
+			}
+			p2, err := w.peerUp(time.Second)
+			if err != nil {
+				fail("re-Open: no link: %v", err)
+			}
+			peers = append(peers, p2)
+			if err := w.selectAsPeer(p2, 0x0200); err != nil {
+				fail("re-Open: select: %v", err)
+			}
+			if !barrier(p2, 3, time.Second) {
+				fail("the re-opened connection does not answer a Linktest.req")
+			}
+			role := "passive"
+			if active {
+				role = "active"
+			}
+			ev.Case(true, fmt.Sprint(active, refusals, off), func() any { return hist }, "c09r:role:"+role, fmt.Sprintf("c09r:offset:%v", off))
+		})
+	})
+}
